@@ -46,6 +46,7 @@ func NewExecCtx(errs ZogIssues, fmter IssueFmtFunc) *ExecCtx {
 	c.Fmter = fmter
 	c.Errors = errs
 	c.m = nil
+	c.sourceTag = nil
 	return c
 }
 
@@ -53,6 +54,19 @@ type ExecCtx struct {
 	Fmter  IssueFmtFunc
 	Errors ZogIssues
 	m      map[string]any
+	// struct tag of the source this execution reads from (json, form, ...), as announced by the
+	// root data provider: nested records of that source are read with the same tag
+	sourceTag *string
+}
+
+// SourceTag returns the struct tag of the source the root data provider of this execution reads from (nil if none)
+func (c *ExecCtx) SourceTag() *string {
+	return c.sourceTag
+}
+
+// SetSourceTag records the struct tag of the source this execution reads from
+func (c *ExecCtx) SetSourceTag(tag *string) {
+	c.sourceTag = tag
 }
 
 func (c *ExecCtx) HasErrored() bool {
